@@ -15,6 +15,7 @@ import shutil
 from concurrent.futures import ThreadPoolExecutor
 import common
 import symlib
+from fractions import Fraction
 import corr_verlet as cv
 import t_verlet
 
@@ -57,7 +58,7 @@ def one_case(args):
                 res["nwrap"] += 1
             if q[1] is not None and q[1] != o:
                 res["diffs"].append("%s: real %s model %s  (request %s)" % (q[2], q[1], o, q[0]))
-            if q[1] is None and [x == "1" for x in o.split()[2:]] != q[2]:
+            if q[1] is None and any(b is not None and a != b for a, b in zip([x == "1" for x in o.split()[2:]], q[2])):
                 res["diffs"].append("counter mode decisions: real %s model %s" % (q[2], o))
     else:
         # family B: same input with the linked-cell creator must give identical forces and positions
@@ -74,9 +75,13 @@ def one_case(args):
             for a, b in zip(steps, st2):
                 if not cv.premise_holds(a, meta):
                     break
-                fa = [(p["slot"], p["r"], p["v"], p["f0"], p["f1"]) for p in a["particles"]]
-                fb = [(p["slot"], p["r"], p["v"], p["f0"], p["f1"]) for p in b["particles"]]
-                if fa != fb:
+                # the two creators list the pairs in different orders: once a sum has to round (after a few steps with forces) the
+                # results may differ in the last bits; a missing or stale pair changes a force by O(0.1)
+                def close(x, y):
+                    return abs(x - y) <= Fraction(1, 2 ** 36) * max(1, abs(x))
+                fa = [(p["slot"], list(p["r"]) + list(p["v"]) + list(p["f0"]) + list(p["f1"])) for p in a["particles"]]
+                fb = [(p["slot"], list(p["r"]) + list(p["v"]) + list(p["f0"]) + list(p["f1"])) for p in b["particles"]]
+                if len(fa) != len(fb) or any(sa != sb or len(va) != len(vb) or not all(close(x, y) for x, y in zip(va, vb)) for (sa, va), (sb, vb) in zip(fa, fb)):
                     res["errors"].append("step %d: forces/positions differ between VerletCreator and LinkedListCreator" % a["step"])
                     break
     return res
